@@ -207,13 +207,49 @@ def c15():
         p.add("h_print::print_len%d_args%d" % (n, a), quick=(n, a) in quick, timeout=1200,
               drives=["eval_print"], bound="all ASCII format strings of %d bytes x all %d-argument lists" % (n, a))
     p.add("h_print::print_two_byte_character", quick=True, timeout=900, bound="a, <any U+0080..U+07FF>, z")
-    p.add("h_print::print_bad_operands", quick=True, timeout=900, bound="non-string format constant, missing constant, short operand stack")
+    p.add("h_print::print_bad_constant", quick=True, timeout=900, bound="non-string format constant, missing constant")
+    p.add("h_print::print_short_stack", quick=False, timeout=900, bound="operand stack shorter than the argument count")
     p.smt_tasks.append(SmtTask("lexer_regex_c15", "c07_lexer.py", quick=True, timeout=300, args=["C15"]))
     p.functions, p.bounds, p.outside, p.not_covered = PRINT_FUNCS + ["fml.lalrpop STRING_LITERAL regex (z3)"], PRINT_BOUNDS, PRINT_OUTSIDE, PRINT_NOT_COVERED
     return p
 
 
-REGISTRY = {"C15": c15, "C05": c05, "C03": c03, "C04": c04, "C08": c08, "C09": c09}
+SCOPE_SEQS = ["r", "l", "a", "lr", "la", "ll", "elr", "lelr", "elxr", "lelxr", "lelxa", "elxelr", "lelar"]
+COMPILE_FUNCS = ["bytecode::compiler::<AST as Compiled>::compile_into (arms Integer, Boolean, Null, Variable, AccessVariable, AssignVariable)",
+                 "compiler::Environment::{new,enter_scope,leave_scope,register_new_local,register_local,has_local,in_outermost_scope,count_locals}",
+                 "program::{ConstantPool::register,ConstantPool::find,Globals::register,Code::emit,Code::emit_unless}"]
+COMPILE_BOUNDS = ["one AST node per step: literals (all values), let / assign with a null value, variable read; keep_result symbolic",
+                  "frames: Local, Top at the outermost scope, Top inside a block",
+                  "scope sequences (shape = operation kinds, content = names symbolic over {x, y}): " + ", ".join(s.upper() for s in SCOPE_SEQS) +
+                  "  (L let, R read, A assign, E enter block, X leave block)"]
+COMPILE_OUTSIDE = ["nesting deeper than one node (composition is by the syntax-directed structure, not machine-checked)",
+                   "sequences longer than 6 operations, more than two names, a second let of a name in the same scope"]
+COMPILE_NOT_COVERED = ["arms with several children (calls, print, object, array, block, conditional, loop, function, top): each recursive compile_into call "
+                       "explores all 23 arms, the cost is exponential in depth (Conditional with literal children: 652 s; two levels: > 8 GB); "
+                       "label uniqueness, jump targets, frame sizes of nested functions and the compound-array rewrite are not decided"]
+
+
+def compile_prop(pid, quick_literals, quick_seqs):
+    p = Prop(pid)
+    for fk in ("local", "top", "top_block"):
+        p.add("h_compile::compile_literal_%s" % fk, quick=fk in quick_literals, timeout=900, drives=["compile_into"], bound="literal arm, frame %s" % fk)
+    for sq in SCOPE_SEQS:
+        for fk in ("local", "top", "block"):
+            p.add("h_compile::scope_%s_%s" % (sq, fk), quick=(sq, fk) in quick_seqs, timeout=1500, drives=["compile_into", "Environment"],
+                  bound="sequence %s in frame %s, every name assignment" % (sq.upper(), fk))
+    p.functions, p.bounds, p.outside, p.not_covered = COMPILE_FUNCS, COMPILE_BOUNDS, COMPILE_OUTSIDE, COMPILE_NOT_COVERED
+    return p
+
+
+def c02():
+    return compile_prop("C02", {"local", "top"}, {("r", "local"), ("r", "block"), ("l", "top"), ("a", "local"), ("lr", "local")})
+
+
+def c12():
+    return compile_prop("C12", set(), {("lr", "local"), ("lr", "top"), ("elr", "block"), ("elxr", "local"), ("lelr", "local"), ("lelxr", "block")})
+
+
+REGISTRY = {"C02": c02, "C12": c12, "C15": c15, "C05": c05, "C03": c03, "C04": c04, "C08": c08, "C09": c09}
 
 
 def get(pid):
